@@ -162,6 +162,26 @@ CLAIMED = {
         design="7 C19", technique="Lean 4 proof (equality of dispatched computations from generated tables, by decide and rewriting) + paired differential runs",
         note=NOTE_COMMON + "History-level stability follows from step equality because the handlers read the active protocol only "
              "through the dispatch version; that last step (state independence of st.proto) is checked by the paired runs, not yet by a Lean non-interference proof."),
+    "C13": dict(
+        text="Lean model of JSON values, an interpreter of the GENERATED marshmallow schema tables (field kinds, required flags, "
+             "range validators, pre_load key translations, unknown=RAISE) and of save/load; load_save (every registry satisfying "
+             "RegOK loads back to itself), reachable_regok / reachable_round_trip (every registry reachable through ANY history of "
+             "received lines and send calls, any faults, satisfies RegOK — a Hoare logic over the whole handler model, resting on "
+             "the battery range check), legacy_same (the pymysensors layout loads to the same registry); tied to the real "
+             "Persistence.save/load on real files with registries reached through wire histories and boundary content.",
+        design="7 C13", technique="Lean 4 proof (round-trip law over a generated-schema interpreter; reachability invariant by Hoare logic + induction over histories) + differential correspondence on real files",
+        note=NOTE_COMMON + "JSON text <-> value (json.dumps/loads, sort_keys) is trusted; marshmallow's coercions are modelled and "
+             "re-measured against the live library on every run (truthy/falsy sets, Int/Str/Bool/Dict behaviour)."),
+    "C14": dict(
+        text="Lean theorem load_total: for every file state (missing, unreadable, undecodable, not JSON, too deep, and EVERY JSON "
+             "value at every nesting level) load either succeeds or fails with the persistence read error, proved over the "
+             "generated except tuples of Persistence.load (shape_caught, read_caught: every exception class the model's steps can "
+             "raise is named by a clause); missing_creates, empty_is_empty; tied to the real load on real files: every prefix of "
+             "valid files, every single-position shape/type mutation, random JSON, undecodable bytes, deep nesting.",
+        design="7 C14", technique="Lean 4 proof (totality over all JSON values against generated except tuples) + differential correspondence on real files",
+        note=NOTE_COMMON + "The byte -> JSON-value classification is done by the real json.loads in the harness (parser not "
+             "modelled). A missing parent directory makes the file creation fail with the persistence WRITE error: outside the "
+             "property's quantifier (file contents), reported as a note."),
 }
 
 PENDING_REASON = "check not built yet in this round (model and theorems in progress); see DESIGN.md section 7"
